@@ -111,6 +111,14 @@ def run_for(pid, repo_root, jobs=None):
     caught = 0
     silent = 0
     samples = []
+    # whole-repository behaviour-preserving transformations (layout round trip, renaming of all locals)
+    from . import transforms
+    for tname, tf in transforms.WHOLE_REPO.items():
+        v, det = verdict(pid, repo_root, tf(repo_root))
+        if v == "ok":
+            silent += 1
+        else:
+            failures.append(f"whole-repo equivalent variant {tname} changed the verdict of {pid}: {v} {det}")
     jobs = jobs or min(16, os.cpu_count() or 4)
     if tasks:
         with ProcessPoolExecutor(max_workers=jobs) as ex:
@@ -136,7 +144,7 @@ def run_for(pid, repo_root, jobs=None):
                 failures.append(f"equivalent variant {vid} changed the verdict of {pid}: {v} {det}")
     return {"selftest_mutants_caught": caught, "selftest_equivalents_silent": silent,
             "selftest_stale": stale, "selftest_failures": failures, "selftest_samples": samples,
-            "selftest_variants": len(tasks)}
+            "selftest_variants": len(tasks) + len(transforms.WHOLE_REPO)}
 
 
 def main(argv):
